@@ -63,5 +63,14 @@ theorem rebalance_never_adjusts_a_validator_that_is_not_bonded (assets : List As
     (h : rebalanceBondTokenWeights assets w = (.ok (), w')) : getSVal w' u = getSVal w u :=
   rebalance_leaves_unbonded_alone assets u w w' hu h
 
+/-- triggers: a successful delegation, undelegation, redelegation or slash callback, and each staking event the module
+    hooks into, leaves the rebalance flag set — the next end-of-block rebalances (proof: AllianceProofs/FlagSet) -/
+theorem stake_changes_queue_a_rebalance (op : Op) (w w' : World)
+    (hop : match op with
+      | .delegate .. | .undelegate .. | .redelegate .. | .slash .. | .hookDelegationModified | .hookValidatorBonded
+      | .hookValidatorBeginUnbonding | .hookDelegationRemoved | .hookValidatorRemoved _ => True
+      | _ => False)
+    (h : step op w = (.ok (), w')) : w'.flag = true := stake_change_sets_flag op w w' hop h
+
 end C10
 end Alliance
